@@ -238,7 +238,10 @@ def s_arith(op, a, b):
         raise _Unsup(f'operator {op} on {describe(a)} and {describe(b)}')
     if op == 'tdiv':
         if isinstance(b, Frac):
-            raise _Unsup('division by a rational')
+            if not _is_pos(b.num):
+                raise _Unsup('division by a rational that the spec does not declare positive')
+            fa = _as_frac(a, '/')
+            return Frac(_mul1(fa.num, b.den), _mul1(fa.den, b.num))
         _need(b, 'Z', '/')
         fa = _as_frac(a, '/')
         if b.op == 'int' and b.a[0] < 0:
@@ -389,6 +392,22 @@ class _Const:
         return self.n
 
 
+class GenArr:
+    """np.arange(n) and what elementwise arithmetic with scalars makes of it: the array whose element number k is
+    `elem`, an expression in the generic index k that the spec declares (spec['index_var'], an extra integer
+    input).  Observing it yields the element at index k."""
+
+    def __init__(self, elem):
+        self.elem = elem
+
+
+class StrV:
+    """a string literal (only compared with other literals, e.g. mode == 'constant')"""
+
+    def __init__(self, v):
+        self.v = v
+
+
 NONE = _Const('None')
 ELLIPSIS = _Const('Ellipsis')
 
@@ -454,6 +473,15 @@ def _cast_nil(x, arity):
     return llit((), arity) if (x.op == 'llit' and not x.a[0]) else x
 
 
+def _degen(v):
+    """an observed arange-derived array stands for its element at the generic index"""
+    if isinstance(v, GenArr):
+        return v.elem
+    if isinstance(v, PyTuple):
+        return _retuple(v, [_degen(it) for it in v.items])
+    return v
+
+
 def lift_choice(v):
     """a tuple with a component that is a choice between shapes -> the choice between the two tuples"""
     if isinstance(v, PyTuple):
@@ -502,11 +530,17 @@ def SEQ(n):
     return ('SEQ', n)
 
 
+def STR(v):
+    return ('STR', v)
+
+
 def VEC(n):
     return ('VEC', n)
 
 
 Z_K = ('Z',)
+Q_K = ('Q',)                   # a rational input (numerator, positive denominator)
+Q_POS = ('Q', 'pos')           # a positive rational input
 Z_POS = ('Z', 'pos')           # an integer input the instance assumes positive (a divisor)
 
 
@@ -656,6 +690,16 @@ def _base_name(e):
     return e.id if isinstance(e, ast.Name) else None
 
 
+# numpy functions that neither modify their array arguments nor return a view of them (documented behaviour of
+# numpy, not an assumption about lentil): passing a tracked array to them does not poison it
+_PURE_NP = {'zeros_like', 'ones_like', 'empty_like', 'full_like', 'sum', 'iscomplexobj', 'isrealobj', 'issubdtype',
+            'isscalar', 'abs', 'absolute', 'any', 'all', 'where', 'nonzero', 'count_nonzero', 'diff', 'min', 'max',
+            'amin', 'amax', 'ndim', 'shape', 'size', 'finfo', 'ceil', 'floor', 'sqrt', 'square', 'array_equal',
+            'allclose', 'isclose', 'mean', 'prod', 'dot', 'outer', 'tile', 'repeat', 'einsum', 'zeros', 'ones', 'empty'}
+# attributes of an ndarray that are not views of its data
+_ARR_META = {'dtype', 'shape', 'ndim', 'size', 'itemsize', 'nbytes'}
+
+
 def _direct_refs(e, env):
     """names whose OBJECT (or a view of it) the expression can evaluate to: these are what a callee receiving the
     value could mutate.  Arithmetic, comparisons and literals create new objects."""
@@ -666,6 +710,15 @@ def _direct_refs(e, env):
         if b is None:
             return _direct_refs(e.value, env)
         v = env.get(b)
+        if isinstance(e, ast.Attribute) and isinstance(e.value, ast.Name) and e.attr in _ARR_META \
+                and isinstance(v, (Arr, Vec)):
+            return set()
+        if isinstance(e, ast.Subscript) and isinstance(e.value, ast.Name) and isinstance(v, (Vec, Seq, PyTuple)):
+            i = e.slice
+            if isinstance(i, ast.UnaryOp) and isinstance(i.op, ast.USub):
+                i = i.operand
+            if isinstance(i, ast.Constant) and isinstance(i.value, int) and not isinstance(i.value, bool):
+                return set()           # one element of a 1-d integer vector is a scalar, not a view
         if isinstance(v, Obj) and isinstance(e, ast.Attribute) and isinstance(e.value, ast.Name):
             a = v.attrs.get(e.attr)
             # an attribute of an abstract object: only a declared mutable integer attribute exposes it
@@ -683,6 +736,17 @@ def _direct_refs(e, env):
         return set().union(*[_direct_refs(x, env) for x in e.values])
     if isinstance(e, ast.Call):
         out = set()
+        d = _dotted(e.func)
+        if d and d.split('.')[0] in ('np', 'numpy') and d.count('.') == 1 and d.split('.')[1] in _PURE_NP \
+                and 'np' not in env and 'numpy' not in env:
+            if any(k.arg == 'out' for k in e.keywords):
+                return {m.id for m in ast.walk(e) if isinstance(m, ast.Name)}
+            # the function itself does not touch its arguments; nested calls inside them are judged on their own
+            for a in list(e.args) + [k.value for k in e.keywords]:
+                for sub in ast.walk(a):
+                    if isinstance(sub, ast.Call):
+                        out |= _direct_refs(sub, env)
+            return out
         if isinstance(e.func, ast.Attribute):
             out |= _direct_refs(e.func.value, env)        # the receiver (the result may alias it)
         for a in e.args:
@@ -722,6 +786,7 @@ class Exec:
         self.depth = 0
         self.returns = []          # Return nodes of the translated region, textual order
         self.atoms = {}            # unparse(call) -> value
+        self.index_var = None      # the generic index of arange-derived arrays (spec['index_var'])
         self.call_obs = {}         # label -> values of the arguments of the observed calls
         self.guards = []           # conditions under which the statement being executed raises IndexError
         self.retk = []             # return continuations of the calls being executed "with exits"
@@ -779,6 +844,10 @@ class Exec:
             return NONE
         if v is Ellipsis:
             return ELLIPSIS
+        if isinstance(v, float) and self.spec.get('rationals') and v.is_integer() and abs(v) < 2 ** 53:
+            return zint(int(v))                     # 2.0 in `n/2.0`: the division is an exact rational anyway
+        if isinstance(v, str):
+            return StrV(v)
         raise _Unsup(f'literal {v!r} is not an integer')
 
     def ev_Name(self, node, env):
@@ -853,6 +922,13 @@ class Exec:
         if op is None:
             raise _Unsup('binary operator ' + type(node.op).__name__)
         a, b = self.ev(node.left, env), self.ev(node.right, env)
+        if isinstance(a, GenArr) or isinstance(b, GenArr):
+            for v in (a, b):
+                if not isinstance(v, (GenArr, X, Frac)):
+                    raise _Unsup(f'arithmetic between an arange-derived array and a {describe(v)}')
+            ea = a.elem if isinstance(a, GenArr) else a
+            eb = b.elem if isinstance(b, GenArr) else b
+            return GenArr(s_arith(op, ea, eb))
         if isinstance(a, Vec) or isinstance(b, Vec):
             for v in (a, b):
                 if not isinstance(v, (Vec, X, Frac)):
@@ -898,7 +974,9 @@ class Exec:
             return functools.reduce(band, [self.struct_eq(x, y) for x, y in zip(a.items, b.items)], bconst(True))
         if isinstance(a, Slice) and isinstance(b, Slice):
             return band(self.struct_eq(a.start, b.start), self.struct_eq(a.stop, b.stop))
-        kinds = (PyTuple, Slice, _Const)
+        kinds = (PyTuple, Slice, _Const, StrV)
+        if isinstance(a, StrV) and isinstance(b, StrV):
+            return bconst(a.v == b.v)
         if isinstance(a, _Const) and isinstance(b, _Const):
             return bconst(a is b)
         if isinstance(a, kinds) and isinstance(b, kinds):
@@ -1069,11 +1147,24 @@ class Exec:
         if any(isinstance(a, ast.Starred) for a in node.args) or any(k.arg is None for k in node.keywords):
             raise _Unsup('call with a starred argument')
         d = _dotted(node.func)
+        if (isinstance(node.func, ast.Attribute) and node.func.attr == 'astype' and len(node.args) == 1
+                and not node.keywords and isinstance(node.args[0], ast.Name) and node.args[0].id == 'int'
+                and 'int' not in env):
+            v = self.ev(node.func.value, env)          # <integer vector>.astype(int): the same integers
+            if isinstance(v, Vec) and not is_poisoned(v) and all(isinstance(x, X) and x.ty == 'Z' for x in v.items):
+                return Vec(list(v.items))
+            if isinstance(v, X) and v.ty == 'Z':
+                return v
+            raise _Unsup('astype(int) of a ' + describe(v))
         if d is None:
             raise _Unsup('call of a computed function')
         head = d.split('.')[0]
         if head in env:
             raise _Unsup(f'call of {d}: the name {head!r} is a local value here')
+        if d in ('np.arange', 'numpy.arange') and self.index_var is not None and len(node.args) == 1 \
+                and all(k.arg == 'dtype' for k in node.keywords):
+            _need(self.ev(node.args[0], env), 'Z', d)
+            return GenArr(self.index_var)                # element number k of np.arange(n) is k (for 0 <= k < n)
         target = self.resolve(d)
         if target is not None:
             args = [self.ev(a, env) for a in node.args]
@@ -1110,8 +1201,27 @@ class Exec:
         if d == 'round' and n == 1:
             _need(args[0], 'Z', 'round()')                  # round of an integer is the integer
             return args[0]
+        if d in ('np.isscalar', 'numpy.isscalar') and n == 1:
+            v = args[0]
+            if isinstance(v, (X, Frac)):
+                return bconst(True)
+            if isinstance(v, (PyTuple, Vec, Seq, LList, Slice)) or v is NONE:
+                return bconst(False)
+            raise _Unsup('np.isscalar of a ' + describe(v))
         if d in ('np.floor', 'numpy.floor', 'math.floor', 'np.ceil', 'numpy.ceil', 'math.ceil') and n == 1:
             v = args[0]                                     # (the float result is an integer: kept as an integer)
+            if isinstance(v, (PyTuple, Vec)) and d.startswith('n') and v.items:
+                if isinstance(v, Vec) and is_poisoned(v):
+                    raise _Unsup('array that an untranslated statement may have changed')
+                out = []
+                for it in v.items:
+                    if isinstance(it, Frac):
+                        out.append(arith('div', it.num, it.den) if d.endswith('floor')
+                                   else neg(arith('div', neg(it.num), it.den)))
+                    else:
+                        _need(it, 'Z', d)
+                        out.append(it)
+                return Vec(out)
             if isinstance(v, Frac):
                 if d.endswith('floor'):
                     return arith('div', v.num, v.den)
@@ -1382,6 +1492,12 @@ class Exec:
         self.check_opaque_ok(s)
         if self.forced_assume(s, env):
             return
+        if (isinstance(s, ast.Assign) and len(s.targets) == 1 and isinstance(s.targets[0], ast.Name)
+                and isinstance(s.value, ast.Call) and isinstance(s.value.func, ast.Attribute)
+                and s.value.func.attr == 'astype' and isinstance(s.value.func.value, ast.Name)
+                and s.value.func.value.id == s.targets[0].id and isinstance(env.get(s.targets[0].id), Arr)
+                and not is_poisoned(env[s.targets[0].id])):
+            return                   # img = img.astype(dtype): a new array of the same shape and ndim
         try:
             if self.list_append(s, env):
                 return
@@ -1469,9 +1585,24 @@ class Exec:
                                                          'block the translator executes without exits')
         c = self.cond(s.test, env)
         if isinstance(c, Opaque):
+            # an untranslatable condition: both branches are executed; a name keeps its value only if both branches
+            # leave it bound to the very same value, everything else they bind becomes unknown
             for t in s.body + s.orelse:
                 self.check_opaque_ok(t)
-            self.opaque_stmt(s, env, c.why)
+            et, ef = dict(env), dict(env)
+            saved, self.binds = self.binds, None
+            try:
+                for t in s.body:
+                    self.stmt(t, et)
+                for t in s.orelse:
+                    self.stmt(t, ef)
+            finally:
+                self.binds = saved
+            for nm in list(et) + [k for k in ef if k not in et]:
+                if et.get(nm) is ef.get(nm):
+                    env[nm] = et[nm]
+                else:
+                    env[nm] = Opaque(f'{nm} is bound under an untranslatable condition (line {s.lineno}: {c.why})')
             return
         if c.op == 'bool':
             for t in (s.body if c.a[0] else s.orelse):
@@ -1598,6 +1729,7 @@ class Exec:
         r = find_opaque(v)
         if r:
             raise TranslationRefused(self.spec['name'], f'{where} depends on: {r}')
+        v = _degen(v)
         v = lift_choice(v)
         if isinstance(v, Choice):
             return ('ite', v.c, self.leaf_value(v.t, where), self.leaf_value(v.f, where))
@@ -2080,6 +2212,8 @@ def _val_free_vars(v, acc):
     elif isinstance(v, (PyTuple, Vec, Seq)):
         for it in v.items:
             _val_free_vars(it, acc)
+    elif isinstance(v, GenArr):
+        _val_free_vars(v.elem, acc)
     elif isinstance(v, Slice):
         _val_free_vars(v.start, acc)
         _val_free_vars(v.stop, acc)
@@ -2134,6 +2268,14 @@ def _make_input(kind, base, namer, inputs):
     if k == 'SEQ':
         v = _make_input(T(kind[1]), base, namer, inputs)
         return Seq(v.items)
+    if k == 'Q':                         # a rational input num/den with den > 0 ('pos': num > 0 too)
+        nm = namer.fresh(base)
+        comps = [namer.fresh(f'{base}_num'), namer.fresh(f'{base}_den')]
+        inputs.append({'name': nm, 'type': TZn(2), 'comps': comps})
+        _POSVARS.add(comps[1])
+        if pos:
+            _POSVARS.add(comps[0])
+        return Frac(var(comps[0], 'Z'), var(comps[1], 'Z'))
     if k == 'NT':                        # a named tuple of integers with the given field names
         v = _make_input(T(len(kind[1])), base, namer, inputs)
         return NamedTup(v.items, kind[1])
@@ -2152,6 +2294,8 @@ def _make_input(kind, base, namer, inputs):
         return var(nm, 'Z')
     if k == 'NONE':
         return NONE
+    if k == 'STR':                       # the instance fixes this (string) argument
+        return StrV(kind[1])
     if k == 'OPAQUE':
         return Opaque(f'parameter {base} is not an integer')
     if k == 'SLICEBOX':
@@ -2207,6 +2351,8 @@ def _vtype(v, name, where):
         return TSL
     if isinstance(v, LList) and v.arity is not None and not is_poisoned(v):
         return ('list', TZ if v.arity == 0 else TZn(v.arity))
+    if isinstance(v, Frac):
+        return TZn(2)                      # a rational result: the pair (numerator, positive denominator)
     raise TranslationRefused(name, f'{where}: the result is a {describe(v)}')
 
 
@@ -2310,6 +2456,10 @@ def _extra_inputs(spec, namer, inputs, ex=None):
         v = _make_input(kind, nm, namer, inputs)
         if ex:
             ex.assumed_at_loop[nm] = v
+    if spec.get('index_var'):
+        v = _make_input(Z_K, spec['index_var'], namer, inputs)
+        if ex:
+            ex.index_var = v
 
 
 def translate_one(spec, fdefs, loader=None):
@@ -2320,7 +2470,8 @@ def translate_one(spec, fdefs, loader=None):
     if fd is None:
         raise TranslationRefused(name, f'function {spec["func"]} not found in {spec["file"]}')
     a = fd.args
-    if a.vararg or a.kwarg or a.kwonlyargs or a.posonlyargs or fd.decorator_list:
+    kwarg_ok = a.kwarg is None or spec.get('kwarg') == a.kwarg.arg
+    if a.vararg or not kwarg_ok or a.kwonlyargs or a.posonlyargs or fd.decorator_list:
         raise TranslationRefused(name, 'signature has decorators, *args, **kwargs or keyword-only parameters')
     pnames = [x.arg for x in a.args]
     if pnames != list(spec['params']):
@@ -2334,6 +2485,8 @@ def translate_one(spec, fdefs, loader=None):
         env[p] = _make_input(spec['params'][p], p, namer, inputs)
         if isinstance(env[p], ListOf):
             ex.listvars[p] = env[p].input
+    if a.kwarg is not None:
+        env[a.kwarg.arg] = Opaque(f'**{a.kwarg.arg} is not an integer')
     ex.param0 = dict(env)
     ex.loader = loader
     _extra_inputs(spec, namer, inputs, ex)
@@ -2430,6 +2583,8 @@ def gv(v, ty=None, top=False):
         return gx(v)
     if isinstance(v, LList):
         return gx(v.x)
+    if isinstance(v, Frac):
+        return f'({gx(v.num)}, {gx(v.den)})'
     if isinstance(v, PyTuple):
         ts = ty[1] if ty is not None else [None] * len(v.items)
         return '(' + ', '.join(gv(it, t) for it, t in zip(v.items, ts)) + ')'
@@ -2569,6 +2724,8 @@ def pv(v, ty=None):
         return px(v)
     if isinstance(v, LList):
         return px(v.x)
+    if isinstance(v, Frac):
+        return f'({px(v.num)}, {px(v.den)},)'
     if isinstance(v, PyTuple):
         ts = ty[1] if ty is not None else [None] * len(v.items)
         return '(' + ', '.join(pv(it, t) for it, t in zip(v.items, ts)) + ',)'
@@ -2898,6 +3055,66 @@ SPECS_C11 = [
          fallback_helpers=['Definition src_zernike_index_step (st_ : list Z) (i : Z) : list Z := append2 st_.']),
 ]
 
+# ---------------------------------------------------------------------- C15 / C13: lentil/radiometry.py
+RAD = 'lentil/radiometry.py'
+_CEILD = '(- ((- ({a})) / {d}))'
+SPECS_C15 = [
+    dict(name='pad_linspace', file=RAD, func='Spectrum.pad', kwarg='kwargs',
+         params={'self': OPAQUE_K, 'ends': SEQ(2), 'sampling': OPAQUE_K, 'mode': STR('constant')},
+         assume={'dwave': Z_POS, 'minwave': Z_K, 'maxwave': Z_K}, rationals=True,
+         observe_calls={'LINSPACE': 'np.linspace'}, observe='(LINSPACE_0, LINSPACE_1)', end='obs', returns=[],
+         rtype=TT(TZn(3), TZn(3)),
+         doc="Spectrum.pad(ends, sampling, mode='constant') on an INTEGER wavelength grid: with dwave = "
+             '_sampling(self.wave, sampling) > 0, minwave, maxwave = self.wave.min(), self.wave.max() as integer '
+             'arguments, the arguments (start, stop, num) of the two np.linspace calls that build the padding: '
+             'nleft = int(np.ceil((minwave - ends[0])/dwave)) + 1, nright likewise (exact rationals)',
+         fallback='((fst ends, minwave, ' + _CEILD.format(a='minwave - fst ends', d='dwave') + ' + 1), '
+                  '(maxwave, snd ends, ' + _CEILD.format(a='snd ends - maxwave', d='dwave') + ' + 1))'),
+    dict(name='pad_linspace_edge', file=RAD, func='Spectrum.pad', kwarg='kwargs',
+         params={'self': OPAQUE_K, 'ends': SEQ(2), 'sampling': OPAQUE_K, 'mode': STR('edge')},
+         assume={'dwave': Z_POS, 'minwave': Z_K, 'maxwave': Z_K}, rationals=True,
+         observe_calls={'LINSPACE': 'np.linspace'}, observe='(LINSPACE_0, LINSPACE_1)', end='obs', returns=[],
+         rtype=TT(TZn(3), TZn(3)), doc="the same for mode='edge'",
+         fallback='((fst ends, minwave, ' + _CEILD.format(a='minwave - fst ends', d='dwave') + ' + 1), '
+                  '(maxwave, snd ends, ' + _CEILD.format(a='snd ends - maxwave', d='dwave') + ' + 1))'),
+]
+SPECS_C13 = [
+    dict(name='common_grid_linspace', file=RAD, func='_interp_common',
+         params={'s1': OPAQUE_K, 's2': OPAQUE_K, 'sampling': OPAQUE_K, 'method': OPAQUE_K, 'fill_value': OPAQUE_K},
+         assume={'minwave': Z_K, 'maxwave': Z_K, 'dwave': Z_POS}, rationals=True,
+         observe_calls={'LINSPACE': 'np.linspace'}, observe='LINSPACE_0', rtype=TZn(3),
+         doc='_interp_common(s1, s2, sampling, ...) on INTEGER wavelength grids: with minwave, maxwave (the common '
+             'range) and dwave = _sampling(...) > 0 as integer arguments, the arguments (start, stop, num + 1) of the '
+             'np.linspace call that builds the common grid, num = int(np.ceil((maxwave - minwave)/dwave))',
+         fallback='(minwave, maxwave, ' + _CEILD.format(a='maxwave - minwave', d='dwave') + ' + 1)'),
+]
+
+# ---------------------------------------------------------------------- C17: lentil/util.py rescale
+_RSC_PARAMS = {'img': ARR(2), 'scale': Q_K, 'shape': NONE_K, 'mask': OPAQUE_K, 'order': OPAQUE_K, 'mode': OPAQUE_K,
+               'unitary': OPAQUE_K}
+_RSC = dict(file=UTL, func='rescale', rationals=True, observe='tuple(shape)', rtype=TZn(2))
+_CEILQ = '(- ((- ({n} * fst scale)) / snd scale))'
+SPECS_C17 = [
+    dict(_RSC, name='rescale_shape', params=_RSC_PARAMS,
+         doc='rescale(img, scale, shape=None, ...) for a 2-d img and a rational scale = num/den (den > 0): the output '
+             'shape np.ceil((img.shape[0]*scale, img.shape[1]*scale)).astype(int) at its return',
+         fallback='(' + _CEILQ.format(n='fst img_shape') + ', ' + _CEILQ.format(n='snd img_shape') + ')'),
+    dict(_RSC, name='rescale_shape_given', params=dict(_RSC_PARAMS, shape=T(2)),
+         doc='the same with a 2-tuple shape argument (the output shape is ceil(shape*scale))',
+         fallback='(' + _CEILQ.format(n='fst shape') + ', ' + _CEILQ.format(n='snd shape') + ')'),
+    dict(_RSC, name='rescale_shape_scalar', params=dict(_RSC_PARAMS, shape=Z_K),
+         doc='the same with a scalar shape argument',
+         fallback='(' + _CEILQ.format(n='shape') + ', ' + _CEILQ.format(n='shape') + ')'),
+    dict(_RSC, name='rescale_coords', params=dict(_RSC_PARAMS, scale=Q_POS), index_var='k', observe='(x, y)',
+         rtype=TT(TZn(2), TZn(2)),
+         doc='rescale(img, scale) for a positive rational scale: element k of the interpolation coordinates x = '
+             '(np.arange(shape[1]) - shape[1]/2.)/scale + img.shape[1]/2. and y (rows), as exact rationals '
+             '(numerator, denominator), for a generic index k',
+         fallback="let N1 := " + _CEILQ.format(n='snd img_shape') + " in let N0 := " + _CEILQ.format(n='fst img_shape')
+                  + " in\n  (((k * 2 - N1) * snd scale * 2 + snd img_shape * (2 * fst scale), 2 * fst scale * 2), "
+                    "((k * 2 - N0) * snd scale * 2 + fst img_shape * (2 * fst scale), 2 * fst scale * 2))"),
+]
+
 # ---------------------------------------------------------------------- C16: lentil/detector.py
 DET = 'lentil/detector.py'
 _ADC_PARAMS = {'img': OPAQUE_K, 'gain': ARR(0), 'saturation_capacity': OPAQUE_K, 'warn_saturate': OPAQUE_K,
@@ -2955,6 +3172,12 @@ SPECS_C09 = [
 SUITES = {
     'C11': {'specs': SPECS_C11, 'gen': 'theories/Gen/ZernikeSrc.v', 'imports': 'Model.Zernike',
             'proofs': 'theories/Proofs/ZernikeSrcP.v', 'target': 'theories/Properties/C11Src.vo', 'props': 'C11Src'},
+    'C15': {'specs': SPECS_C15, 'gen': 'theories/Gen/SpectrumSrc.v', 'imports': 'Lib.Base',
+            'proofs': 'theories/Proofs/SpectrumSrcP.v', 'target': 'theories/Properties/C15Src.vo', 'props': 'C15Src'},
+    'C13': {'specs': SPECS_C13, 'gen': 'theories/Gen/SpectrumOpSrc.v', 'imports': 'Lib.Base',
+            'proofs': 'theories/Proofs/SpectrumOpSrcP.v', 'target': 'theories/Properties/C13Src.vo', 'props': 'C13Src'},
+    'C17': {'specs': SPECS_C17, 'gen': 'theories/Gen/RescaleSrc.v', 'imports': 'Lib.Base',
+            'proofs': 'theories/Proofs/RescaleSrcP.v', 'target': 'theories/Properties/C17Src.vo', 'props': 'C17Src'},
     'C20': {'specs': SPECS_C20, 'gen': 'theories/Gen/GeometrySrc.v', 'imports': 'Model.Geometry Model.Shapes',
             'proofs': 'theories/Proofs/GeometrySrcP.v', 'target': 'theories/Properties/C20Src.vo', 'props': 'C20Src'},
     'C16': {'specs': SPECS_C16, 'gen': 'theories/Gen/DetectorSrc.v', 'imports': 'Lib.Base',
@@ -3312,6 +3535,11 @@ def find_witness(name, info, pyfunc, rng, exhaustive_budget=120000, n_random=400
         except Exception:      # noqa: BLE001
             continue
         n += 1
+        if name in CANON:
+            try:
+                a, b = CANON[name](a), CANON[name](b)
+            except Exception:      # noqa: BLE001   (e.g. a zero denominator outside the declared domain)
+                continue
         if a != b:
             w = {'args': args, 'source': a, 'model': b}
             if _valid_pref(name, args):
@@ -3340,6 +3568,8 @@ def selfcheck(name, info, pyfunc, lentil, rng, n=160):
         want = pyfunc(*args)
         if name in PROJECT:            # the running code exposes only part of the translated value
             want = PROJECT[name](want)
+        if name in CANON:
+            want = CANON[name](want)
         if got != want:
             return compared, {'args': args, 'running_code': got, 'translated': want}
     return compared, None
@@ -3859,6 +4089,176 @@ def _s_zernike_row(j):
     return int(math.ceil((-1 + math.sqrt(1 + 8 * j)) / 2) - 1) if j >= 1 else 0
 
 
+# ====================================================================== C17 rescale
+CANON = {}          # name -> normal form of a value before comparison (rationals: pairs -> Fraction)
+
+
+def _ceil_frac(a, d):
+    return -((-a) // d)
+
+
+def _m_rescale_shape(dims, sc):
+    return tuple(_ceil_frac(n * sc[0], sc[1]) for n in dims)
+
+
+def _m_rescale_coords(ish, sc, k):
+    from fractions import Fraction
+    s = Fraction(sc[0], sc[1])
+    N0, N1 = _m_rescale_shape(ish, sc)
+    return ((k - Fraction(N1, 2)) / s + Fraction(ish[1], 2), (k - Fraction(N0, 2)) / s + Fraction(ish[0], 2))
+
+
+def _canon_fracs(v):
+    from fractions import Fraction
+    return tuple(x if isinstance(x, Fraction) else Fraction(x[0], x[1]) for x in v)
+
+
+MIRROR.update({
+    'rescale_shape': lambda ish, sc: _m_rescale_shape(ish, sc),
+    'rescale_shape_given': lambda ish, sc, shape: _m_rescale_shape(shape, sc),
+    'rescale_shape_scalar': lambda ish, sc, shape: _m_rescale_shape((shape, shape), sc),
+    'rescale_coords': _m_rescale_coords,
+})
+CANON['rescale_coords'] = _canon_fracs
+
+
+def _drv_rescale(L, ish, sc, shape=None, k=None):
+    """scale = num/den must be a dyadic rational (exactly a float) small enough that the float products are exact"""
+    import numpy as np
+    from fractions import Fraction
+    num, den = sc
+    if den < 1 or den & (den - 1) or not 1 <= num <= 64 or den > 16 or not (1 <= min(ish) and max(ish) <= 12):
+        return SKIP
+    if isinstance(shape, tuple) and not (1 <= min(shape) and max(shape) <= 12):
+        return SKIP
+    if isinstance(shape, int) and not 1 <= shape <= 12:
+        return SKIP
+    loc, r = _trace_locals(L.util.rescale, 'rescale', 'lentil/util.py', np.ones(ish), num / den, shape=shape)
+    if loc is None or 'shape' not in loc or loc['shape'] is None or isinstance(r, Exception) and 'x' not in loc:
+        return SKIP
+    if k is None:
+        return _ints(loc['shape'])
+    if num & (num - 1):
+        return SKIP                    # the coordinates divide by the scale: exact in floating point only for 2^e
+    x, y = loc['x'], loc['y']
+    if not (0 <= k < len(x) and k < len(y)):
+        return SKIP
+    return (Fraction(float(x[k])), Fraction(float(y[k])))
+
+
+DRIVER.update({
+    'rescale_shape': lambda L, ish, sc: _drv_rescale(L, ish, sc),
+    'rescale_shape_given': lambda L, ish, sc, shape: _drv_rescale(L, ish, sc, tuple(shape)),
+    'rescale_shape_scalar': lambda L, ish, sc, shape: _drv_rescale(L, ish, sc, int(shape)),
+    'rescale_coords': lambda L, ish, sc, k: _drv_rescale(L, ish, sc, None, k),
+})
+
+
+def _s_scale(rng):
+    den = rng.choice([1, 2, 4, 8])
+    return (rng.randint(1, 4 * den), den)
+
+
+def _s_rescale_coords(rng):
+    ish, sc = (rng.randint(1, 9), rng.randint(1, 9)), (rng.choice([1, 2, 4]), rng.choice([1, 2, 4, 8]))
+    N = _m_rescale_shape(ish, sc)
+    return (ish, sc, rng.randint(0, max(0, min(N) - 1)))
+
+
+SAMPLER.update({
+    'rescale_shape': lambda rng: ((rng.randint(1, 10), rng.randint(1, 10)), _s_scale(rng)),
+    'rescale_shape_given': lambda rng: ((rng.randint(1, 6), rng.randint(1, 6)), _s_scale(rng),
+                                        (rng.randint(1, 10), rng.randint(1, 10))),
+    'rescale_shape_scalar': lambda rng: ((rng.randint(1, 6), rng.randint(1, 6)), _s_scale(rng), rng.randint(1, 10)),
+    'rescale_coords': _s_rescale_coords,
+})
+PREF.update({
+    'rescale_shape': lambda ish, sc: min(ish) >= 1 and sc[0] >= 1 and sc[1] in (1, 2, 4, 8),
+    'rescale_shape_given': lambda ish, sc, sh: min(ish + sh) >= 1 and sc[0] >= 1 and sc[1] in (1, 2, 4, 8),
+    'rescale_shape_scalar': lambda ish, sc, sh: min(ish) >= 1 and sh >= 1 and sc[0] >= 1 and sc[1] in (1, 2, 4, 8),
+    'rescale_coords': lambda ish, sc, k: min(ish) >= 1 and sc[0] >= 1 and sc[1] in (1, 2, 4, 8) and 0 <= k,
+})
+
+
+# ====================================================================== C15 pad / C13 common grid
+def _m_pad_linspace(ends, d, w0, wl):
+    return ((ends[0], w0, _ceil_frac(w0 - ends[0], d) + 1), (wl, ends[1], _ceil_frac(ends[1] - wl, d) + 1))
+
+
+MIRROR.update({
+    'pad_linspace': _m_pad_linspace, 'pad_linspace_edge': _m_pad_linspace,
+    'common_grid_linspace': lambda mn, mx, d: (mn, mx, _ceil_frac(mx - mn, d) + 1),
+})
+
+
+def _int_grid(w0, wl, d):
+    """an integer wavelength grid from w0 to wl whose smallest spacing is d, or None"""
+    if d < 1 or w0 < 1 or wl > 10 ** 6:           # (the Spectrum constructor refuses wavelengths <= 0)
+        return None
+    if wl - w0 == d:
+        return [w0, wl]
+    if wl - w0 >= 2 * d:
+        return [w0, w0 + d, wl]
+    return None
+
+
+def _drv_pad_linspace(mode):
+    def drv(L, ends, d, w0, wl):
+        import numpy as np
+        g = _int_grid(w0, wl, d)
+        if g is None or max(abs(v) for v in ends) > 10 ** 6 or abs(ends[0] - w0) > 400 * d or abs(ends[1] - wl) > 400 * d:
+            return SKIP
+        sp = L.radiometry.Spectrum(wave=np.array(g, dtype=float), value=np.ones(len(g)))
+        loc, r = _trace_locals(sp.pad, 'pad', 'lentil/radiometry.py', tuple(float(v) for v in ends), mode=mode)
+        if loc is None or 'nright' not in loc:
+            return SKIP
+        if float(loc['dwave']) != d or float(loc['minwave']) != w0 or float(loc['maxwave']) != wl:
+            return SKIP
+        e = loc['ends']
+        return ((int(e[0]), w0, int(loc['nleft'])), (wl, int(e[1]), int(loc['nright'])))
+    return drv
+
+
+def _drv_common_grid(L, mn, mx, d):
+    import numpy as np
+    g = _int_grid(mn, mx, d)
+    if g is None or (mx - mn) > 2000 * d:
+        return SKIP
+    S = L.radiometry.Spectrum
+    s1 = S(wave=np.array(g, dtype=float), value=np.ones(len(g)))
+    s2 = S(wave=np.array(g[:2], dtype=float), value=np.ones(2))
+    loc, r = _trace_locals(L.radiometry._interp_common, '_interp_common', 'lentil/radiometry.py', s1, s2, 'min',
+                           'linear', 0)
+    if loc is None or 'num' not in loc or isinstance(r, Exception):
+        return SKIP
+    if float(loc['dwave']) != d:
+        return SKIP
+    return (int(loc['minwave']), int(loc['maxwave']), int(loc['num']) + 1)
+
+
+DRIVER.update({'pad_linspace': _drv_pad_linspace('constant'), 'pad_linspace_edge': _drv_pad_linspace('edge'),
+               'common_grid_linspace': _drv_common_grid})
+
+
+def _s_pad(rng):
+    d = rng.randint(1, 7)
+    w0 = rng.randint(1, 400)
+    wl = w0 + d * rng.randint(1, 12) + (0 if rng.random() < 0.6 else rng.randint(0, d - 1) + d)
+    return ((w0 - rng.randint(-3, 25), wl + rng.randint(-3, 25)), d, w0, wl)
+
+
+def _s_common(rng):
+    d = rng.randint(1, 9)
+    mn = rng.randint(1, 900)
+    return (mn, mn + d * rng.randint(1, 30) + (0 if rng.random() < 0.5 else d + rng.randint(0, d - 1)), d)
+
+
+SAMPLER.update({'pad_linspace': _s_pad, 'pad_linspace_edge': _s_pad, 'common_grid_linspace': _s_common})
+PREF.update({'pad_linspace': lambda e, d, w0, wl: _int_grid(w0, wl, d) is not None,
+             'pad_linspace_edge': lambda e, d, w0, wl: _int_grid(w0, wl, d) is not None,
+             'common_grid_linspace': lambda mn, mx, d: _int_grid(mn, mx, d) is not None})
+
+
 # ====================================================================== the check of one layer (called from extra)
 def lemma_function(lemma, names):
     """the spec name a lemma `src_<name>...` is about (longest match)"""
@@ -4041,6 +4441,10 @@ def _parse(repo, rel, cache):
         for s in tree.body:
             if isinstance(s, ast.FunctionDef):
                 fdefs[s.name] = s
+            elif isinstance(s, ast.ClassDef):
+                for m in s.body:                     # methods are addressed as 'Class.method'
+                    if isinstance(m, ast.FunctionDef):
+                        fdefs[f'{s.name}.{m.name}'] = m
             elif isinstance(s, ast.Assign) and len(s.targets) == 1 and isinstance(s.targets[0], ast.Name):
                 nm, v = s.targets[0].id, s.value
                 assigns.setdefault(nm, []).append(v)
